@@ -144,6 +144,9 @@ class PM:
             mi = ModuleInfo(name, str(p.relative_to(self.root)), tree, src, is_pkg=is_pkg)
             self.modules[name] = mi
         import os
+        if os.environ.get("VERIF_NO_NORMALISE") != "1":
+            from . import normalise
+            self.normalise_report = normalise.normalise(self.modules, self.PKG)
         if os.environ.get("VERIF_NO_ALPHA") != "1":
             from . import alpha
             self.alpha_report = alpha.normalise(self.modules, self.PKG)
